@@ -35,7 +35,8 @@ try:
     res["demo_patched_out"] = o[-400:]
     for f in demo:
         os.remove(os.path.join(wt, pkg, f))
-    rc, o = run(["go", "test", "-vet=off", "-count=1"] + tests)
+    # the two tests of internal/mtail that fail on the unchanged tree (empty dhcpd testdata file) are left out
+    rc, o = run(["go", "test", "-vet=off", "-count=1", "-skip", "^(TestExamplePrograms|TestFilePipeStreamComparison)$"] + tests)
     res["existing_tests_pass"] = rc == 0
     if rc != 0: res["existing_tests_out"] = o
 finally:
